@@ -286,6 +286,12 @@ pub fn execute(t: &Trace, opts: Opts) -> ExecResult {
                 check_c01(&mut run, &t.header, a, -1, &nop);
                 check_ctor_state(&mut run, &t.header, a);
             }
+            // conversions start non-empty: the caller's history starts with those pairs
+            for l in &a.lists {
+                for e in &l.ents {
+                    sl.shadow.insert(e.ident, Sh::Stored(e.val));
+                }
+            }
         }
         sl.alpha = a;
     }
@@ -629,7 +635,7 @@ fn do_event(run: &mut Run, slots: &mut [Option<Slot>], ti: usize, step: i64, ev:
             let sref = sl.s.as_ref();
             let estf = |k: u32| -> u64 { sref.estimate(k).unwrap_or(0) };
             let ctx = model::Ctx { est: &estf };
-            let e = catch_unwind(AssertUnwindSafe(|| model::step(kind, pre, op, &ctx)));
+            let e = catch_unwind(AssertUnwindSafe(|| world::suspended(|| model::step(kind, pre, op, &ctx))));
             match e {
                 Ok(e) => expects = e,
                 Err(p) => {
@@ -639,7 +645,7 @@ fn do_event(run: &mut Run, slots: &mut [Option<Slot>], ti: usize, step: i64, ev:
             }
             if kind == Kind::Wtlfu {
                 for sc in est_script(op.code) {
-                    let r = catch_unwind(AssertUnwindSafe(|| sref.est_after(&sc, op.k)));
+                    let r = catch_unwind(AssertUnwindSafe(|| world::suspended(|| sref.est_after(&sc, op.k))));
                     est_candidates.push(r.unwrap_or(None));
                 }
             }
@@ -708,6 +714,23 @@ fn do_event(run: &mut Run, slots: &mut [Option<Slot>], ti: usize, step: i64, ev:
         }
     }
     if let (true, Some(pre), Some(post)) = (oracles && !was_faulted, pre.as_ref(), post.as_ref()) {
+        if val.is_panic() {
+            // a panic where the policy model expects an outcome also breaks the policy property
+            if let Some(exps) = &expects {
+                if let Some(e) = exps.first() {
+                    let prop = model_prop(kind, op);
+                    let d = format!(
+                        "pre {} ; op {} ; the operation panicked ({}) where the model expects {} [{}]",
+                        pre.show(),
+                        op.show(),
+                        val.show(),
+                        e.val.show(),
+                        e.branch
+                    );
+                    run.viol(prop, "model_step_panic", step, op, d);
+                }
+            }
+        }
         if val != Val::Unsupported && !val.is_panic() {
             // distinct (state, event, outcome) triples
             if run.opts.collect_distinct {
@@ -738,6 +761,22 @@ fn do_event(run: &mut Run, slots: &mut [Option<Slot>], ti: usize, step: i64, ev:
         }
     }
     let _ = calls_before;
+    if val.is_panic() && !run.faulted {
+        // the operation stopped half-way: the caller-side histories are no longer trustworthy
+        let sl = slots[ti].as_mut().unwrap();
+        sl.tlfu = None;
+        sl.sampled = None;
+        if let Some(post) = post.as_ref() {
+            for (_, s) in sl.shadow.iter_mut() {
+                *s = Sh::Released;
+            }
+            for l in &post.lists {
+                for e in &l.ents {
+                    sl.shadow.insert(e.ident, Sh::Stored(e.val));
+                }
+            }
+        }
+    }
     // shadow models of the two non-cache subjects (C11, C20)
     if oracles && !was_faulted && !val.is_panic() && val != Val::Unsupported {
         if let Some(post) = post.as_ref() {
@@ -745,10 +784,10 @@ fn do_event(run: &mut Run, slots: &mut [Option<Slot>], ti: usize, step: i64, ev:
             let mut stats = std::mem::take(&mut run.stats);
             let r = if let Some(sh) = sl.tlfu.as_mut() {
                 let s = sl.s.as_mut();
-                Some(("C11", catch_unwind(AssertUnwindSafe(|| sh.step(s, op, &val, post, &mut stats)))))
+                Some(("C11", catch_unwind(AssertUnwindSafe(|| world::suspended(|| sh.step(s, op, &val, post, &mut stats))))))
             } else if let Some(sh) = sl.sampled.as_mut() {
                 let s = sl.s.as_mut();
-                Some(("C20", catch_unwind(AssertUnwindSafe(|| sh.step(s, op, &val, post, &mut stats)))))
+                Some(("C20", catch_unwind(AssertUnwindSafe(|| world::suspended(|| sh.step(s, op, &val, post, &mut stats))))))
             } else {
                 None
             };
@@ -803,7 +842,19 @@ fn check_ctor_state(run: &mut Run, h: &Header, a: &Alpha) {
             );
         }
     }
-    if !a.lists.iter().all(|l| l.ents.is_empty()) {
+    let conversion = h.kind == Kind::Lru && h.random_state && !h.with_cb && h.ctor >= 1;
+    if conversion {
+        // L8: every distinct key of the input is retained, capacity >= 1
+        let n = h.sizes[0] as u32;
+        let want: Vec<u32> = if h.ctor == 7 && n > 3 { (1..=3).collect() } else { (1..=n).collect() };
+        let mut got: Vec<u32> = a.lists[0].ents.iter().map(|e| e.ident).collect();
+        got.sort_unstable();
+        if got != want {
+            // not a violation: C05 only demands that conversions never panic (L8)
+            run.stats.bump("conversion_truncated");
+        }
+        run.stats.bump("conversion_ctor");
+    } else if !a.lists.iter().all(|l| l.ents.is_empty()) {
         run.viol("C01", "fresh_not_empty", -1, &nop, "a freshly constructed cache is not empty".into());
     }
 }
@@ -875,6 +926,22 @@ fn check_c01(run: &mut Run, _h: &Header, a: &Alpha, step: i64, op: &Op) {
     }
 }
 
+fn model_prop(kind: Kind, op: &Op) -> &'static str {
+    if op.code == Code::Iter {
+        "C14"
+    } else {
+        match kind {
+            Kind::Lru => "C06",
+            Kind::Slru => "C07",
+            Kind::TwoQ => "C08",
+            Kind::Arc => "C09",
+            Kind::Wtlfu => "C10",
+            _ => "",
+        }
+    }
+}
+
+#[allow(clippy::too_many_arguments)]
 fn check_model(
     run: &mut Run,
     kind: Kind,
@@ -886,37 +953,15 @@ fn check_model(
     op: &Op,
     est_candidates: &[Option<caches::verif::TinyLFUState>],
 ) {
-    let prop = if op.code == Code::Iter {
-        "C14"
-    } else {
-        match kind {
-            Kind::Lru => "C06",
-            Kind::Slru => "C07",
-            Kind::TwoQ => "C08",
-            Kind::Arc => "C09",
-            Kind::Wtlfu => "C10",
-            _ => return,
-        }
-    };
-    let ms = MState::of(post);
-    // entries that moved into a ghost list in this step must sit at its most-recent end
-    let mut front_req: Vec<(usize, (u32, u64))> = Vec::new();
-    let nres = kind.resident_lists();
-    for gi in nres..post.lists.len() {
-        if let Some(f) = post.lists[gi].ents.first() {
-            let was_res = pre.lists.iter().take(nres).any(|l| l.find(f.ident).is_some());
-            let _ = was_res;
-        }
-        // expectation side: if every candidate agrees on the front entry and it was resident before
-        let fronts: BTreeSet<Option<(u32, u64)>> = exps.iter().map(|e| e.post.lists[gi].first().copied()).collect();
-        if fronts.len() == 1 {
-            if let Some(Some(f)) = fronts.into_iter().next() {
-                if pre.lists.iter().take(nres).any(|l| l.find(f.0).is_some()) {
-                    front_req.push((gi, f));
-                }
-            }
-        }
+    let prop = model_prop(kind, op);
+    if prop.is_empty() {
+        return;
     }
+    let ms = MState::of(post);
+    // L5 (corrected after a false alarm, see DESIGN 8): ARC trims its ghost lists to the target
+    // sizes right after an eviction, so even the entry that was just evicted may be forgotten at
+    // once; nothing is required of a ghost list beyond order, membership and its bound.
+    let front_req: Vec<(usize, (u32, u64))> = Vec::new();
     let mut errs: Vec<String> = Vec::new();
     let mut ok = false;
     for e in exps {
@@ -1023,6 +1068,7 @@ fn check_c12(run: &mut Run, pre: &Alpha, post: &Alpha, val: &Val, step: i64, op:
     }
     // set delta: R' = R + k - e (ARC may additionally lose ghosts silently)
     let nres = kind.resident_lists();
+    let mut arc_victims = 0;
     for (id, v) in &retained_pre {
         if *id == k || Some(*id) == evd.map(|e| e.0) {
             continue;
@@ -1030,6 +1076,11 @@ fn check_c12(run: &mut Run, pre: &Alpha, post: &Alpha, val: &Val, step: i64, op:
         if !retained_post.contains_key(id) {
             let was_ghost = pre.lists.iter().skip(nres).any(|l| l.find(*id).is_some());
             if kind == Kind::Arc && was_ghost {
+                continue;
+            }
+            // ARC: the victim of a full cache becomes a ghost and may be trimmed in the same put
+            if kind == Kind::Arc && !was_ghost && pre.resident_count() >= pre.pub_cap && arc_victims == 0 {
+                arc_victims += 1;
                 continue;
             }
             bad(run, "silent_loss", format!("entry (k{},v{}) left the cache during this put without being reported", id, v));
